@@ -49,7 +49,10 @@ type c19FbCase struct {
 	Logo    *c19Logo `json:"logo,omitempty"`
 	Palette []c19Pal `json:"palette,omitempty"` // palette entries replaced before anything is drawn
 	AtStart bool     `json:"at_start,omitempty"`
-	Ops     []c19Op  `json:"ops"`
+	// ViaBoot: the console is created by probeForVesaFbConsole from the framebuffer
+	// tag of a multiboot information block, as at boot, not by a constructor call
+	ViaBoot bool    `json:"via_boot,omitempty"`
+	Ops     []c19Op `json:"ops"`
 }
 
 // c19Stream expands a seed into bytes (splitmix64); the expansion is a pure
@@ -286,6 +289,21 @@ func c19FbRun(c c19FbCase) (*vlib.Failure, c19OpStats) {
 			GreenMaskSize: c.GSize, BluePosition: c.BPos, BlueMaskSize: c.BSize}
 	}
 	cons := NewVesaFbConsole(c.Width, c.Height, c.Bpp, m.pitch, ci, 0xe0000000)
+	var boot *c19Boot
+	if c.ViaBoot {
+		typ, colour := uint8(1), []byte{c.RPos, c.RSize, c.GPos, c.GSize, c.BPos, c.BSize}
+		if c.Bpp == 8 {
+			typ, colour = 0, []byte{0, 0}
+		}
+		boot = c19BootBlock(0xe0000000, m.pitch, c.Width, c.Height, c.Bpp, typ, colour)
+		boot.install()
+		defer multiboot.SetInfoPtr(0)
+		drv := probeForVesaFbConsole()
+		var ok bool
+		if cons, ok = drv.(*VesaFbConsole); !ok || cons == nil {
+			return vlib.Failf("%s: probeForVesaFbConsole did not detect the framebuffer described by the boot information", geo), st
+		}
+	}
 	if pc := vlib.CatchFault(func() {
 		if e := cons.DriverInit(c19Discard{}); e != nil {
 			panic("DriverInit: " + e.Message)
@@ -412,6 +430,11 @@ func c19FbRun(c c19FbCase) (*vlib.Failure, c19OpStats) {
 		}
 		copy(m.model, fb)
 	}
+	if boot != nil {
+		if ch := boot.changed(); ch != "" {
+			return vlib.Failf("%s: the driver wrote to the boot information it was created from: %s", geo, ch), st
+		}
+	}
 	return nil, st
 }
 
@@ -505,6 +528,7 @@ func c19GenFb(t *rapid.T, allowEmptyGrid bool, excluded func()) c19FbCase {
 		return c19Pal{Index: rapid.Byte().Draw(t, "index"), R: rapid.Byte().Draw(t, "r"), G: rapid.Byte().Draw(t, "g"), B: rapid.Byte().Draw(t, "b")}
 	}), 0, 6).Draw(t, "palette")
 	c.AtStart = rapid.IntRange(0, 3).Draw(t, "placement") == 0
+	c.ViaBoot = rapid.IntRange(0, 2).Draw(t, "viaboot") == 0
 
 	// colours worth drawing besides 0..15: the replaced entries and the entries
 	// the logo was remapped to
@@ -536,6 +560,7 @@ func c19FbLabels(c c19FbCase, st c19OpStats) (bool, []string) {
 	add(c.GlyphW == 16, "glyph-width=16")
 	add(c.Logo != nil, "logo-offset>0")
 	add(c.Pad > 0, "pitch>row-bytes")
+	add(c.ViaBoot, "created-from-boot-information")
 	add(c.Bpp != 8 && c.RPos < c.BPos, "layout-bgr")
 	add(c.Bpp == 16 && c.GSize == 5, "depth=16-with-555-masks")
 	add(c.Width%c.GlyphW != 0, "right-remainder-strip")
